@@ -34,7 +34,7 @@ import (
 
 func init() { drivers["connwrap"] = runConnWrap }
 
-const wrapAddr = "127.0.10.3"
+var wrapAddr = loop(3)
 
 // countConn: Close is counted; Read blocks until the first Close, then EOF; Write succeeds
 type countConn struct {
